@@ -4,35 +4,38 @@
    PrefixLaw  for every x of the domain and of its one-byte mutations (substitution, deletion) and every k:
               Decode(Take(x, k)) is "need" below the completion point of x and equals Decode(x) from there on
               (so Decode is a function of the first cp bytes, and "need" is never followed by a different verdict
-              than the one of the whole input). *)
+              than the one of the whole input).
+   The domain is split into 16 families (variable c) so that TLC's workers share the load. *)
 EXTENDS ProxyProto, TLC
-A4 == {<<0, 0, 0, 0>>, <<1, 2, 3, 4>>, <<255, 255, 255, 255>>, <<10, 0, 200, 99>>}
-A6 == {Zeros(15) \o <<1>>, <<254, 128>> \o Zeros(13) \o <<2>>, [j \in 1..16 |-> 255],
-       <<32, 1, 13, 184, 0, 0, 0, 0, 0, 8, 8, 0, 32, 12, 65, 122>>}
-Ports == {0, 1, 80, 65535}
+A4 == <<<<0, 0, 0, 0>>, <<1, 2, 3, 4>>, <<255, 255, 255, 255>>, <<10, 0, 200, 99>>>>
+A6 == <<Zeros(15) \o <<1>>, <<254, 128>> \o Zeros(13) \o <<2>>, [j \in 1..16 |-> 255],
+        <<32, 1, 13, 184, 0, 0, 0, 0, 0, 8, 8, 0, 32, 12, 65, 122>>>>
+Ports == <<0, 1, 80, 65535>>
 TlvLists == {<<>>, <<[t |-> 4, v |-> <<>>]>>, <<[t |-> 1, v |-> <<104, 50>>], [t |-> 255, v |-> <<0>>]>>}
 Trails == {<<>>, <<71>>, <<13, 10>>}
-Inet(tl) == {Hdr(0, 0, 1, "inet", Mapped4(a), Mapped4(b), p, q, tl) : a \in A4, b \in {<<1, 2, 3, 4>>, <<255, 255, 255, 255>>}, p \in Ports, q \in {0, 65535}}
-Inet6(tl) == {Hdr(0, 0, 1, "inet6", a, b, p, q, tl) : a \in A6, b \in {Zeros(15) \o <<1>>, [j \in 1..16 |-> 255]}, p \in Ports, q \in {1, 65535}}
+Inet(c, tl) == {Hdr(0, 0, 1, "inet", Mapped4(A4[(c \div 4) + 1]), Mapped4(b), Ports[(c % 4) + 1], q, tl) : b \in {<<1, 2, 3, 4>>, <<255, 255, 255, 255>>}, q \in {0, 65535}}
+Inet6(c, tl) == {Hdr(0, 0, 1, "inet6", A6[(c \div 4) + 1], b, Ports[(c % 4) + 1], q, tl) : b \in {Zeros(15) \o <<1>>, [j \in 1..16 |-> 255]}, q \in {1, 65535}}
 SetVer(h, v, n) == [h EXCEPT !.ver = v, !.cp = n]
-Case1 == {[x |-> EncodeV1(h) \o t, h |-> SetVer(h, 1, Len(EncodeV1(h)))] : h \in Inet(<<>>) \cup Inet6(<<>>) \cup {HdrNoAddr(0, 0, 1, "none")}, t \in Trails}
-H2 == UNION {Inet(tl) \cup Inet6(tl) \cup {Hdr(0, 0, 1, "unix", Zeros(16), Zeros(16), 0, 0, tl)} : tl \in TlvLists}
-Case2 == {[x |-> EncodeV2(h, pr, <<>>) \o t, h |-> SetVer(h, 2, Len(EncodeV2(h, pr, <<>>)))] : h \in H2, pr \in {1, 2}, t \in Trails}
-        \cup {[x |-> EncodeV2(h, 0, pad) \o t, h |-> SetVer(h, 2, 16 + Len(pad))] :
-              h \in {HdrNoAddr(0, 0, 1, "none"), HdrNoAddr(0, 0, 0, "local")}, pad \in {<<>>, <<1, 2, 3>>}, t \in Trails}
+Case1(c) == {[x |-> EncodeV1(h) \o t, h |-> SetVer(h, 1, Len(EncodeV1(h)))] :
+             h \in Inet(c, <<>>) \cup Inet6(c, <<>>) \cup (IF c = 0 THEN {HdrNoAddr(0, 0, 1, "none")} ELSE {}), t \in Trails}
+H2(c) == UNION {Inet(c, tl) \cup Inet6(c, tl) \cup (IF c = 1 THEN {Hdr(0, 0, 1, "unix", Zeros(16), Zeros(16), 0, 0, tl)} ELSE {}) : tl \in TlvLists}
+Case2(c) == {[x |-> EncodeV2(h, pr, <<>>) \o t, h |-> SetVer(h, 2, Len(EncodeV2(h, pr, <<>>)))] : h \in H2(c), pr \in {1, 2}, t \in Trails}
+        \cup (IF c # 2 THEN {} ELSE {[x |-> EncodeV2(h, 0, pad) \o t, h |-> SetVer(h, 2, 16 + Len(pad))] :
+              h \in {HdrNoAddr(0, 0, 1, "none"), HdrNoAddr(0, 0, 0, "local")}, pad \in {<<>>, <<1, 2, 3>>}, t \in Trails})
 Alpha == {0, 10, 13, 32, 46, 48, 54, 57, 58, 102, 120, 255}
-Subst(x) == {[x EXCEPT ![p] = b] : p \in 1..Len(x), b \in Alpha}
-Del(x) == {SubSeq(x, 1, p - 1) \o SubSeq(x, p + 1, Len(x)) : p \in 1..Len(x)}
+Subst(c, x) == {[x EXCEPT ![p] = b] : p \in {q \in 1..Len(x) : q % 16 = c}, b \in Alpha}
+Del(c, x) == {SubSeq(x, 1, p - 1) \o SubSeq(x, p + 1, Len(x)) : p \in {q \in 1..Len(x) : q % 16 = c}}
 MutBase == {EncodeV1(Hdr(0, 1, 1, "inet", Mapped4(<<1, 2, 3, 4>>), Mapped4(<<10, 0, 200, 99>>), 80, 65535, <<>>)) \o <<71>>,
             EncodeV1(Hdr(0, 1, 1, "inet6", <<254, 128>> \o Zeros(13) \o <<2>>, Zeros(15) \o <<1>>, 1, 2, <<>>)),
             EncodeV1(HdrNoAddr(0, 1, 1, "none")) \o <<71>>,
             EncodeV2(Hdr(0, 2, 1, "inet", Mapped4(<<1, 2, 3, 4>>), Mapped4(<<5, 6, 7, 8>>), 80, 443, <<[t |-> 4, v |-> <<7>>]>>), 1, <<>>) \o <<71>>,
             EncodeV2(HdrNoAddr(0, 2, 0, "local"), 0, <<9>>)}
-Mutants == UNION {Subst(x) \cup Del(x) : x \in MutBase}
-VARIABLE st
-Init == st \in Case1 \cup Case2 \cup {[x |-> m, h |-> "mutant"] : m \in Mutants}
-Next == UNCHANGED st
-RoundTrip == st.h # "mutant" => Decode(st.x) = st.h
+Mutants(c) == UNION {Subst(c, x) \cup Del(c, x) : x \in MutBase}
+Family(c) == Case1(c) \cup Case2(c) \cup {[x |-> m, h |-> [kind |-> "mutant"]] : m \in Mutants(c)}
+VARIABLES c, st
+Init == c \in 0..15 /\ st = [x |-> <<>>, h |-> [kind |-> "mutant"]]
+Next == st.x = <<>> /\ st' \in Family(c) /\ c' = c
+RoundTrip == st.h.kind # "mutant" => Decode(st.x) = st.h
 PrefixLaw == LET x == st.x
                  r == Decode(x)
              IN \A k \in 0..Len(x) : LET rk == Decode(Take(x, k)) IN
